@@ -186,7 +186,11 @@ func c02ValidateChain(r *Run, fn *ssa.Function) {
 		// the parsed chain (the one compared with the verified path) is filled in the parse loop with each
 		// parsed certificate: chain = append(chain, cert), or chain[i] = cert in a chain of len(rawChain)
 		fills, makes, built := sliceFills(CallArgs(ce)[0])
-		r.Check("ValidateChain:chain-built-here", built, r.Where(ce), "the parsed chain "+clipStr(chain, 100)+" is built by single-element appends / index assignments")
+		bd := "the parsed chain " + clipStr(chain, 100) + " is built by single-element appends / index assignments"
+		if !built {
+			bd = "the parsed chain " + clipStr(chain, 100) + " that is compared with the verified path is not built by single-element appends / index assignments alone (it is also cut, replaced or written some other way): it need not hold every submitted certificate"
+		}
+		r.Check("ValidateChain:chain-built-here", built, r.Where(ce), bd)
 		var app []ssa.Instruction
 		for _, f := range fills {
 			if h == nil || loopHeaderOf(f.In.Block()) != h {
@@ -264,7 +268,16 @@ func c02ValidateChain(r *Run, fn *ssa.Function) {
 	for _, ret := range Returns(fn) {
 		got := r.D.D(ret.Results[0])
 		if errKind(ret.Results[1]) == "nil" {
-			r.Check("ValidateChain:returns-the-compared-path", got == r.D.D(CallArgs(ce)[1]), r.Where(ret), "hands on "+clipStr(got, 100)+" — the verified path that was compared with the submitted chain")
+			// the path handed on, as the success return can see it: a position found by a search (−1 | position of
+			// the hit) is the position of the hit wherever only the hit's edge leads to this return
+			if want := r.D.D(CallArgs(ce)[1]); got != want {
+				got = r.D.DUnder(ret.Results[0], r.edgesReaching(fn, Sigma{}, ret))
+			}
+			d := "hands on " + clipStr(got, 100) + " — the verified path that was compared with the submitted chain"
+			if got != r.D.D(CallArgs(ce)[1]) {
+				d = "hands on " + clipStr(got, 100) + ", which is not the verified path that chainsEquivalent compared with the submitted chain (" + clipStr(r.D.D(CallArgs(ce)[1]), 100) + "): the validated chain handed on need not contain the submitted certificates"
+			}
+			r.Check("ValidateChain:returns-the-compared-path", got == r.D.D(CallArgs(ce)[1]), r.Where(ret), d)
 		} else {
 			r.Check("ValidateChain:error⇒no-path", got == "nil", r.Where(ret), "error return carries path "+clipStr(got, 80))
 		}
@@ -339,19 +352,8 @@ func c02FatalImplications(r *Run, fn *ssa.Function) []Implication {
 
 func c02ChainsEquivalent(r *Run, fn *ssa.Function) {
 	no := retIs(0, "false", "")
-	r.CheckCases(fn, "chainsEquivalent:length", CaseTable{
-		Atoms: []RuleAtom{{Name: "n", OrdA: "len(p0)", OrdB: "len(p1)"}, {Name: "n1", OrdA: "len(p0)", OrdB: "(len(p1) - 1)"}},
-		Class: func(v map[string]string) string {
-			if v["n"] == "=" && v["n1"] == "=" {
-				return ""
-			}
-			if v["n"] != "=" && v["n1"] != "=" {
-				return "len(in) ∉ {len(v), len(v)−1}"
-			}
-			return "length fits"
-		},
-		Want: map[string]func(*Run, *ssa.Return) (bool, string){"len(in) ∉ {len(v), len(v)−1}": no},
-	})
+	// other lengths than n or n+1 are refused: decided per path on the branch outcomes, however the test is spelled
+	c02LengthFact(r, fn)
 	eq := "(*x509.Certificate).Equal(p0[*], p1[*])"
 	if len(CallsTo(fn, "(*x509.Certificate).Equal")) == 0 && c02EqualFuncForm(r, fn) {
 		return
